@@ -84,7 +84,8 @@ def link_stores(fs, st):
         tr = list(tr)
         for i, e in enumerate(tr):
             if e[0] == 'weak-store' and e[1] == 'SEEN' and link_overlap(fs, e[2], e[3]):
-                if not any(x[0] == 'free' and x[1] == 'SEEN' for x in tr[i + 1:]):
+                scrub = len(e) > 4 and e[4] in ('zero', 'const')
+                if not (scrub and any(x[0] == 'free' and x[1] == 'SEEN' for x in tr[i + 1:])):
                     out.append((e[2], e[3]))
             elif e[0] == 'loop':
                 for it in e[2]:
